@@ -84,7 +84,19 @@ the copy error:
                                     default cache; the memo keyed by the entry directory; the copy error lost; F19e
                                     before the fix) breaks the statements — the ties `tie_new_cache_sites`,
                                     `tie_head_memo_key`, `tie_copy_error_kept`, `tie_offline_skips_tmp` pin the code to
-                                    the good choices.
+                                    the good choices;
+* `offline_uses_every_remote_repository`, `offline_complete`  several repositories (`GetRepositoryIndexes`): an offline
+                                    build that gets its indexes got, for EVERY configured remote repository, the complete
+                                    body of an advertised entry of that repository's entry directory, once served under
+                                    its index URL — none is dropped (`OfflineComplete`); local repositories are skipped
+                                    as before (`offline_local_missing_skipped`); the repair changes nothing where every
+                                    repository was cached once (`offline_rules_agree_when_cached`); the pinned condition
+                                    `errors.Is(err, fs.ErrNotExist)` is REFUTED (`offline_dropped_never_cached_repository_before_fix`,
+                                    `never_cached_repository_witness`: finding F19f, fixed, replayed by
+                                    corpus/cache/F19f.json); tie `tie_index_skip_rule`;
+* `noetag_transparent`, `weak_validator_serves_stale`  a response without an ETag is never stored; a name that does not
+                                    identify the body (Last-Modified) answers with a stale revision — tie
+                                    `tie_etag_is_the_only_validator`.
 -/
 import Apko.Model.Cache
 import Apko.Model.Memo
